@@ -279,6 +279,9 @@ func Tokens(s string) (toks []Tok, gaps []string, ok bool) {
 	pos := 0
 	for _, t := range toks {
 		j := strings.Index(s[pos:], t.Text)
+		if j < 0 {
+			return nil, nil, false // only possible when the text changed under us (a library result aliasing a reused buffer)
+		}
 		// tokens appear in order; whitespace between them is only SP/HT/LF/CR so Index finds the next one
 		gaps = append(gaps, s[pos:pos+j])
 		pos += j + len(t.Text)
